@@ -101,6 +101,22 @@ CHECKS["C16"] = dict(
     note=TRUST + "Assumes group.makegroup computes the closure (float allclose on integer matrices is exact). Not decided: "
          "ties of the trace / hkl score, numerical consequences for indexing.")
 
+CHECKS["C03"] = dict(
+    category="other", design_ref="DESIGN.md section 3 / C03",
+    technique="abstract interpretation of the centring predicates over the congruence domain Z/6Z (exhaustive, exact); "
+              "dispatch-table identity; path enumeration / dominance rules on the ring builder and the generator; cache-"
+              "coherence (typestate) rule on (peaks, limit)",
+    text="Static: (R1) the centring dispatch table is the identity on names and covers exactly the accepted letters "
+         "(found 'A' -> I); (R2) each of P,A,B,C,I,F,R is evaluated on every residue class mod 6 and equals the "
+         "crystallographic absence condition - exhaustive and exact because the predicates factor through Z/6Z, which is "
+         "checked; (R3) makerings partitions the sorted list: every path of the loop body files the reflection in exactly "
+         "one ring; (R4) a reflection is kept only under ds < dsmax and not absent, (000) skipped, list sorted; (R5) "
+         "whatever gethkls returns is what it cached with its limit. Soundness of the list and the ring partition are "
+         "decided as necessary conditions; COMPLETENESS of the axis walk for oblique cells is not decided.",
+    note=TRUST + "Completeness of the signed axis walk with early-exit counters (the properties file records that triclinic "
+         "cells lose reflections) is a statement about the reach of a search heuristic; no static rule implies or refutes "
+         "it and none is substituted. xfab's genhkl_all (integer space groups) is outside the analysed code.")
+
 NOT_YET = {}
 
 NOT_APPLICABLE = {
